@@ -74,11 +74,13 @@ def gen_poly(rng, d):
 SESSION = []      # requests made so far in this process; the relevant ones are part of every replay
 
 
-def run_one(ctx, A, C, p, kind, eps, suc, tol, so, bits_vec, replay_base):
+def run_one(ctx, A, C, p, kind, eps, suc, tol, so, bits_vec, replay_base, pobj_override=None):
     drv = ctx.driver()
     before = [c for i, c in enumerate(SESSION) if i >= len(SESSION) - 4 or (c.get("special") and i >= len(SESSION) - 60)]
     SESSION.append({"poly": list(p), "eps": eps, "suc": suc, "tolerance": tol, "signal_operator": so, "seed_bits": bits_vec})
     pobj, pform = P.poly_form(p, (list(p), so, eps)) if not all(isinstance(x, int) for x in p) else (list(p), "int-list")
+    if pobj_override is not None:
+        pobj, pform = pobj_override, "callers-own-ndarray-edited-in-place"
     ctx.count("container:" + pform)
     try:
         with core.quiet(), P.forced_seed(bits_vec) as calls:
@@ -174,6 +176,20 @@ def run(tier, seed):
                 so2 = "Wz" if so == "Wx" else "Wx"
                 run_one(ctx, A, C, p, kind + "/sibling", eps2, suc2, tol2, so2, None,
                         {"poly": p, "kind": kind + "/sibling", "eps": eps2, "suc": suc2, "tolerance": tol2, "signal_operator": so2})
+            # ... and a sweep step: the same polynomial rescaled by 1e-6 .. 1e-3, the caller's OWN ndarray edited in place
+            # between the two requests (memoisation keyed on identity or on approximate equality shows only then)
+            if rng.random() < 0.4:
+                box = np.array(p, dtype=float)
+                try:
+                    with core.quiet(), P.forced_seed([0] * 256):
+                        A.QuantumSignalProcessingPhases(box, eps=eps, suc=suc, signal_operator=so, tolerance=tol)
+                except Exception:  # noqa
+                    pass
+                box *= 1.0 - float(rng.choice([1e-3, 2e-4, 3e-5, 1e-6]))
+                p2 = [float(x) for x in box]
+                ctx.count("session:sweep-step-after-request")
+                run_one(ctx, A, C, p2, kind + "/sweep-step", eps, suc, tol, so, None,
+                        {"poly": p2, "kind": kind + "/sweep-step", "eps": eps, "suc": suc, "tolerance": tol, "signal_operator": so}, pobj_override=box)
         # between degrees: requests outside the domain (constant, mixed parity, far too large) - may raise, must not
         # influence what follows
         for bad in ([float(rng.uniform(0.1, 0.9))], [float(x) for x in rng.uniform(0.1, 0.3, size=d + 1)], [3.0 * x for x in p]):
